@@ -39,6 +39,16 @@ def main(argv):
         mod = importlib.import_module(CHECKS[pid])
         if argv[2] == '--replay':
             return mod.cmd_replay(argv[3])
+        if argv[2] == '--digests':
+            import json
+            import shutil
+            import tempfile
+            scratch = tempfile.mkdtemp(prefix='verif_dig_')
+            try:
+                print('DIGESTS ' + json.dumps(mod.selftest_digests(common.env_seed(), int(argv[3]), scratch)))
+            finally:
+                shutil.rmtree(scratch, ignore_errors=True)
+            return 0
         tier = os.environ.get('VERIF_TIER') or argv[2]
         if tier not in ('quick', 'thorough'):
             print(__doc__)
